@@ -125,6 +125,11 @@ Theorem C15_hv_swap_adjacent : forall k ref pts, (S k < length ref)%nat ->
 Proof. exact hv_swap_at. Qed.
 Print Assumptions C15_hv_swap_adjacent.
 
+Theorem C15_hv_last_2obj : forall rx ry l,
+  hv_last [rx; ry] (map (fun xy : Q * Q => [fst xy; snd xy]) l) == hv [rx; ry] (map (fun xy => [fst xy; snd xy]) l).
+Proof. exact hv_last_2d. Qed.
+Print Assumptions C15_hv_last_2obj.
+
 Theorem C15_hv_translate : forall t ref ref' pts pts',
   length ref = length t -> length ref' = length t ->
   sh t ref ref' -> Forall2 (sh t) pts pts' -> hv ref' pts' == hv ref pts.
